@@ -319,7 +319,8 @@ class Pred(object):
     resolve(fn, var_node)    optional: defining expression of another local (see unique_def_resolver)
     """
 
-    def __init__(self, fn, leaf, domain=CODEPOINTS, resolve=None, char_signed=True):
+    def __init__(self, fn, leaf, domain=CODEPOINTS, resolve=None, char_signed=True, callee=None):
+        self.callee = callee      # optional: callee(fn, call node, argument domain) -> (arg index, truthy argument set) | None
         self.fn = fn
         self.leaf = leaf
         self.domain = domain
@@ -463,6 +464,8 @@ class Pred(object):
         if k == 'condop':
             (al, ah), (bl, bh) = self.bounds(n['then']), self.bounds(n['else'])
             return (min(al, bl), max(ah, bh))
+        if k == 'call' and self.callee is not None and int_type(n.get('t')) == (False, 1):
+            return (0, 1)
         raise Unsupported('expression kind %s (%s)' % (k, n.get('cls')))
 
     # -- truth sets
@@ -565,6 +568,16 @@ class Pred(object):
             if e is None:
                 raise Unsupported('free variable %s besides the analysed one' % n.get('name'))
             return self.preimage(e, T)
+        if k == 'call' and self.callee is not None and int_type(n.get('t')) == (False, 1):
+            # boolean helper with one integer argument: its body is summarised as the set of arguments it accepts
+            args = [a for a in n.get('args', []) if a is not None]
+            if len(args) == 1:
+                lo, hi = self.bounds(args[0])
+                r = self.callee(fn, n, ISet.span(lo, hi))
+                if r is not None:
+                    t = self.preimage(args[0], r[1])
+                    return (t if 1 in T else EMPTY) | ((self.domain - t) if 0 in T else EMPTY)
+            raise Unsupported('call of %s cannot be summarised' % n.get('q', '?'))
         if k == 'condop':
             c = self.truth(n['cond'])
             return (c & self.preimage(n['then'], T)) | ((self.domain - c) & self.preimage(n['else'], T))
@@ -650,7 +663,7 @@ class Pred(object):
     def value_at(self, nid, x):
         """The value of term nid when the leaf has value x (x must be in the domain); exact, via the preimage of
         singletons restricted to {x} -- implemented by a one-point domain."""
-        p = Pred(self.fn, self.leaf, ISet.of(x), self.resolve, self.char_signed)
+        p = Pred(self.fn, self.leaf, ISet.of(x), self.resolve, self.char_signed, self.callee)
         lo, hi = p.bounds(nid)
         if lo == hi:
             return lo
